@@ -78,9 +78,8 @@ def substLine (re : RStr) (rep : Bytes) (g : Bool) (line : Bytes) : Option (Opti
           let acc := (r.getD []) ++ ln.take so ++ x
           let ln1 := ln.drop eo.toNat
           -- zero-length match (`offs[1] <= offs[0]`): copy one character (`uc_len` bytes)
-          let l := Uc.ucLen (ln1.headD 0)
+          let l := min (Uc.ucLen (ln1.headD 0)) ln1.length     -- MIN(uc_len(ln), strlen(ln))
           let empty := eo ≤ offs.getD 0 0
-          if empty && l > ln1.length then none else      -- a truncated character: memcpy past the terminator
           let (acc, ln2) := if empty then (acc ++ ln1.take l, ln1.drop l) else (acc, ln1)
           if ln2.isEmpty || ln2.headD 0 == 10 || !g then some (some acc, ln2)
           else go f ln2 (some acc) false
@@ -194,10 +193,14 @@ def ecAt : Nat → Ed → Bytes → Bytes → Bytes → R Int
       | none => none
       | some ((rc, b, _), ed) =>
         if rc != 0 then some (1, ed) else
+        if ed.atDepth ≥ 16 then some (1, ed.show (strOf "register recursion too deep")) else
         let ed := { ed with xrow := b }
         if cmd.headD 0 == 114 && cmd.getD 1 0 == 97 then
           { ed with unmodelled := true } |> fun ed => some (1, ed)
-        else exCommand f ed buf
+        else
+          match exCommand f { ed with atDepth := ed.atDepth + 1 } buf with
+          | none => none
+          | some (r, ed) => some (r, { ed with atDepth := ed.atDepth - 1 })
 
 /-- `ec_glob` -/
 def ecGlob : Nat → Ed → Bytes → Bytes → Bytes → R Int
@@ -234,7 +237,7 @@ def ecGlob : Nat → Ed → Bytes → Bytes → Bytes → R Int
                   if (res < 0) == neg then
                     (match exExec f { ed with xrow := i } s with
                     | none => none
-                    | some (r, ed) => if r != 0 then some (true, ed, i) else some (false, ed, min i ed.xrow))
+                    | some (r, ed) => if r != 0 then some (true, ed, i) else some (false, ed, max 0 (min i ed.xrow)))
                   else some (false, ed, i)
                 match stepres with
                 | none => none
@@ -609,7 +612,7 @@ def exCommand : Nat → Ed → Bytes → R Int
     | some (r, ed) => some (r, (ed.modifiedAt 0).2)
 end
 
-def FUEL : Nat := 40
+def FUEL : Nat := 200
 
 /-- one round of the `ex()` loop: read a line, run it, remember it in register `:` -/
 def exStep (ed : Ed) : Option (Int × Ed) :=
